@@ -56,8 +56,26 @@ func (m *Map[T]) UnmarshalJSON(b []byte) error {
 }
 
 type AVal struct {
-	K string      `json:"k"` // str | ref | num | other | nil
+	K string      `json:"k"` // str | ref | num | other | nil  - or any expression kind of ExprRules.tla
 	V interface{} `json:"v,omitempty"`
+	// expression fields (when the value is an abstract expression tree)
+	T     string        `json:"t,omitempty"`
+	Steps Seq[AStep]    `json:"steps,omitempty"`
+	Es    Seq[*AExpr]   `json:"es,omitempty"`
+	Items Seq[AObjItem] `json:"items,omitempty"`
+}
+
+// AsExpr: the value as an abstract expression (nil for the simple value kinds)
+func (v *AVal) AsExpr() *AExpr {
+	switch v.K {
+	case "lit", "list", "obj":
+		return &AExpr{K: v.K, T: v.T, V: v.V, Steps: v.Steps, Es: v.Es, Items: v.Items}
+	case "ref":
+		if len(v.Steps) > 0 {
+			return &AExpr{K: v.K, Steps: v.Steps}
+		}
+	}
+	return nil
 }
 
 type AItem struct {
